@@ -3,7 +3,7 @@
    OCaml's; positive/N/Z/nat stay the extracted inductive types. *)
 From Coq Require Extraction ExtrOcamlBasic.
 From PV Require Import Base.Common Model.LabelScope Model.Syntax Model.VarScope Proofs.VarScopeProofs Base.IR Model.Lower Model.Sem Model.Expand Model.Header Model.Containers Model.Layout Model.Literal Gen.Linkage Base.Tok Model.LexAlpha Model.LexDelta Model.Cli Model.RefParser Model.Resolve Model.Cfg Model.Mutability Model.DeltaNodes Model.TypeLegal Proofs.ResolveProofs Model.LintWalk Model.Escape Model.MemLower Model.OutPath Model.Loc Model.DeltaExpr.
-From PV Require Model.Autoderef Model.CallFrame.
+From PV Require Model.Autoderef Model.CallFrame Model.AssignSteps.
 
 Extraction Language OCaml.
 Separate Extraction
@@ -39,5 +39,5 @@ Separate Extraction
   MemLower.ref_instrs MemLower.ref_instrs_pinned MemLower.elaborate MemLower.lower_ref MemLower.lower_ref_pinned MemLower.gep_offset MemLower.gen MemLower.erase
   Autoderef.pred_table Autoderef.pred_table_private Autoderef.analyze_deref Autoderef.autoderef Autoderef.pointer_depth Autoderef.is_slice_pointer Autoderef.type_of_reference Autoderef.argument_coercion
   CallFrame.run_frame_case CallFrame.arg_value CallFrame.arg_view CallFrame.arg_slice CallFrame.arg_pointer CallFrame.arg_slice_pointer CallFrame.local_var CallFrame.constant
-  Literal.lint_on
+  Literal.lint_on AssignSteps.assignment_steps
   Syntax.body_codes Syntax.spec_body Syntax.lint_body Syntax.lint_spec_body.
